@@ -3,6 +3,7 @@ package hx
 import (
 	"fmt"
 	"math"
+	"reflect"
 	"strconv"
 	"strings"
 
@@ -191,6 +192,26 @@ var UserFns = []userFn{
 	// function names are case sensitive
 	{"Twice", KInt, 1, KInt, IntToInt},
 	{"ABS", KFloat, 1, KFloat, FloatToFloat}, // not the built-in abs
+}
+
+// SetDecoys registers, under every user function's name, a function of the same signature that returns zero values.
+func SetDecoys(ctx *eval.Context) {
+	for _, f := range UserFns {
+		typ := reflect.TypeOf(f.Real)
+		decoy := reflect.MakeFunc(typ, func([]reflect.Value) []reflect.Value { return []reflect.Value{reflect.Zero(typ.Out(0))} })
+		if err := ctx.SetFunc(f.Name, decoy.Interface()); err != nil {
+			panic(err)
+		}
+	}
+}
+
+// SetReal registers the user functions (again).
+func SetReal(ctx *eval.Context) {
+	for _, f := range UserFns {
+		if err := ctx.SetFunc(f.Name, f.Real); err != nil {
+			panic(err)
+		}
+	}
 }
 
 // NewCtx returns a context with the user functions registered.
